@@ -714,8 +714,8 @@ def call(I, name, args, e):
     if re.match(r'^core::num::<impl (u8|u16|u32|u64|usize)>::(leading_zeros|ilog2)$', n):
         # bit length of the operand: leading_zeros(x) = BITS - bitlen(x);  ilog2(x) = bitlen(x) - 1
         bits = int_bits(re.match(r'^core::num::<impl (\w+)>', n).group(1))
-        # the operand is a value of the type: what is measured is the term reduced to the type's width
-        bl = ('call', 'bitlen', trunc(a0, bits) if is_term(a0) else a0); sym.CALL_RANGE[bl] = (0, 64)
+        # (the operand is measured as the mathematical value: an addition that wraps before it is C18's overflow site)
+        bl = ('call', 'bitlen', a0); sym.CALL_RANGE[bl] = (0, 64)
         return sub(C(bits), bl) if n.endswith('leading_zeros') else sub(bl, ONE)
     if re.match(r'^core::num::<impl (u8|u16|u32|u64|usize)>::next_power_of_two$', n) and is_term(a0):
         # smallest power of two >= x (an overflow panics in debug builds and is a refusal the callers' ranges exclude here)
